@@ -4,6 +4,8 @@
 use crate::adapter::*;
 use crate::engine::*;
 use crate::guard::guard;
+#[allow(unused_imports)]
+use crate::guard::Caught;
 use crate::model::MDirect;
 use crate::payload::with_reg;
 use crate::probe::ProbeCounts;
@@ -304,9 +306,29 @@ impl<W: WorldOps> Engine<W> {
                 None => guard(|| W::run_query(&mut s.w, q, QM_ITER_DESTROY, &mut f)),
             }
         };
-        if let Err(c) = res {
-            self.unexpected_panic(Some(wi), &what, &c);
-            return;
+        let mut overflow_at_last = false;
+        let mut drop_fault_at_last = false;
+        if let Err(Caught::Injected(k)) = &res {
+            // injected by the fault workload: a closure fault happens before the visit is
+            // logged (all logged visits are complete); a Drop fault happens while the loop
+            // drops the components of the entity it just destroyed (the last logged visit)
+            self.rep.count(&format!("fault.iter_destroy.{}", kind_of(*k)));
+            self.slot(wi).m.faulted = true;
+            broke = true;
+            if *k == crate::payload::FaultKind::Drop {
+                drop_fault_at_last = true;
+            }
+        } else if let Err(c) = res {
+            // a version overflow inside the loop's destroy is a documented panic: legal iff the
+            // entity whose destruction was in progress needed a counter beyond u32::MAX
+            let last_uid = visits.last().and_then(|(v, _)| expect.get(&v.entity.raw()).map(|x| x.0));
+            let legit = c.contains("version overflow") && !self.wrapping && visits.last().map(|(_, d)| d.map(|d| d.destroys()).unwrap_or(false)).unwrap_or(false);
+            if !legit || last_uid.is_none() {
+                self.unexpected_panic(Some(wi), &what, &c);
+                return;
+            }
+            overflow_at_last = true;
+            self.rep.count("overflow.panic.in_iter_destroy");
         }
         self.rep.add("iter_destroy.visits", visits.len() as u64);
         if after_break > 0 {
@@ -344,7 +366,25 @@ impl<W: WorldOps> Engine<W> {
                     *pc.directs_by_source.entry("ecs_iter_destroy!").or_insert(0) += 1;
                 }
             }
+            let is_last = seen.len() == visits.len();
+            if drop_fault_at_last && is_last {
+                self.after_fault(wi, &[uid], "Drop panic inside ecs_iter_destroy!");
+                break;
+            }
+            if overflow_at_last && is_last {
+                if !self.expect_version_overflow(wi, uid) {
+                    self.viol(Some(wi), &["C08", "C10"], "overflow-spurious", format!("{what}: 'version overflow' panic while destroying {} whose counters are not at u32::MAX", raw_fmt(v.entity)));
+                    return;
+                }
+                self.after_fault(wi, &[uid], "version overflow inside ecs_iter_destroy!");
+                broke = true;
+                break;
+            }
             if d.unwrap().destroys() {
+                if self.expect_version_overflow(wi, uid) {
+                    self.viol(Some(wi), &["C08"], "overflow-no-panic", format!("{what}: destroying {} needed a generation counter beyond u32::MAX but did not panic", raw_fmt(v.entity)));
+                    return;
+                }
                 destroyed_rows.push(self.slot(wi).m.ents[uid].row.clone());
                 self.slot(wi).m.remove(uid, step);
                 self.rep.count("iter_destroy.destroyed");
